@@ -143,12 +143,24 @@ def gen_fit_data(rng, p, scale):
     data = {"dgms": dgms, "forms": forms, "single": single, "skew": rng.random() < 0.7}
     # the guarantee must hold for the values the handed-over objects denote: single precision can merge coordinates
     # that differ in float64 (e.g. 500.001 / 500.003); such data fall back to float64 arrays
-    _, vals, _ = materialize_fit(data)
-    allp = np.vstack(vals)
-    cols = (allp[:, 0], allp[:, 1], allp[:, 1] - allp[:, 0])
-    if not all(float(c.max()) > float(c.min()) for c in cols):
+    if not fit_extent_ok(data):
         data["forms"] = ["f64" if f == "f32" else f for f in forms]
     return data
+
+
+def fit_extent_ok(data):
+    """Positive extent in birth, death and persistence - also in the arithmetic of the handed-over dtype: two
+    persistences that differ by 1e-8 in float64 are equal when the float32 diagram is skewed in float32."""
+    given, vals, _ = materialize_fit(data)
+    allp = np.vstack(vals)
+    cols = [allp[:, 0], allp[:, 1], allp[:, 1] - allp[:, 0]]
+    g32 = [np.asarray(g) for g in given if isinstance(g, np.ndarray) and g.dtype == np.float32]
+    if g32:
+        a32 = np.vstack([np.asarray(v, dtype=np.float32) for v in vals])
+        cols.append(a32[:, 1] - a32[:, 0])
+        cols.append(a32[:, 0])
+    scale = float(np.abs(allp).max()) if allp.size else 1.0
+    return all(float(c.max()) - float(c.min()) > (1e-6 * scale if g32 else 0.0) for c in cols)
 
 
 def materialize_fit(d):
@@ -239,6 +251,8 @@ def gen_case(rng, tier):
                     p_ = lo_p + (hi_p - lo_p) * rng.random()
                     if p_ >= 0:
                         d_["dgms"][0].append([b_, b_ + p_])
+                if not fit_extent_ok(d_):
+                    d_["forms"] = ["f64" if f == "f32" else f for f in d_["forms"]]
                 ops.append({"inst": k, "op": "fit", "data": d_})
             else:
                 ops.append({"inst": k, "op": "fit", "data": gen_fit_data(rng, p_of[k], scale)})
@@ -483,7 +497,7 @@ def run_case(case, sched):
                     if d.get("skew", True):
                         allp = np.column_stack([allp[:, 0], allp[:, 1] - allp[:, 0]])
                     lo, hi = allp.min(axis=0), allp.max(axis=0)
-                    if not (hi[0] > lo[0] and hi[1] > lo[1]) or not np.isfinite(allp).all():
+                    if not (hi[0] > lo[0] and hi[1] > lo[1]) or not np.isfinite(allp).all() or not fit_extent_ok(d):
                         raise InvalidCase("fit data must span a positive extent")
                     if max(hi[0] - lo[0], hi[1] - lo[1]) / float(im.pixel_size) > 400:
                         skipped += 1
